@@ -492,12 +492,13 @@ class BaseProfile(object):
         # Make sure z is an array
         if not isinstance(z, np.ndarray):
             if not isinstance(z, list):
-                z = np.array([z])
+                z = np.array([z], dtype=float)
             else:
-                z = np.array(z)
+                z = np.array(z, dtype=float)
         else:
-            # Work on a copy so that the caller's array is not altered below
-            z = z.copy()
+            # Work on a (floating-point) copy so that the caller's array is 
+            # not altered below
+            z = z.astype(float)
         
         # Catch the out-of-range error.  This should only occur when an ODE
         # solver gets close to the boundary; thus, it is acceptable to revert
